@@ -15,7 +15,7 @@ from ..attach import Call, Handler
 DECIDING_MONITORS = ["C20.artists", "C20.unchanged", "C20.ticks"]
 PASSIVE_UNDER_TESTS = True
 RULE = ("1D (irregular bins, zeros, int / float contents, custom errors, named) and 2D histograms and collections are plotted with the "
-        "matplotlib (Agg) kinds bar / scatter / line / fill / step / map / image, the plotly kinds bar / line / scatter / map and the ASCII "
+        "matplotlib (Agg) kinds bar / scatter / line / fill / step / map / image / polar_map (wedges read back from the polar axes) / bar3d (boxes observed as the arguments of Axes3D.bar3d) and, for 'never modified' only, globe_map / cylinder_map / surface_map / pair_bars, the plotly kinds bar / line / scatter / map and the ASCII "
         "hbar, with density / cumulative / errors / show_values / show_zero / ticks options and label overrides; the drawn artists (bar "
         "rectangles, line / step / scatter data, fill polygons, error-bar segments, map rectangles and face colours, image array and extent, "
         "texts, title, axis labels, ticks; plotly traces; captured stdout) are compared with the histogram's edges / centres and frequencies / "
@@ -640,6 +640,181 @@ class PlotUnchangedMonitor(Handler):
             pass
 
 
+def mpl_special_2d_case(ctx, index, rng: random.Random):
+    """polar_map (one wedge per bin at (phi, r)) and bar3d (one box per bin at the bin's position, height = value):
+    the drawing calls of matplotlib are observed at its boundary (Axes.bar / Axes3D.bar3d arguments)."""
+    import matplotlib
+
+    matplotlib.use("Agg")
+    import matplotlib.pyplot as plt
+    from matplotlib.patches import Rectangle
+    from mpl_toolkits.mplot3d import Axes3D
+    from physt import special_histograms as sp
+
+    rec = ctx.rec
+    kind = rng.choice(["polar_map", "polar_map", "bar3d"])
+    density = rng.random() < 0.3
+    opts = {"density": True} if density else {}
+    if kind == "polar_map":
+        n = rng.randint(1, 40)
+        pts = np.array([[rng.uniform(-3, 3), rng.uniform(-3, 3)] for _ in range(n)])
+        r_edges = np.array(sorted({0.0, 4.5} | {round(rng.uniform(0.3, 4.2), 2) for _ in range(rng.randint(0, 3))}))
+        kw = {"weights": np.asarray([rng.randint(0, 16) / 4 for _ in range(n)], dtype=float)} if rng.random() < 0.5 else {}
+        with warnings.catch_warnings():
+            warnings.simplefilter("ignore")
+            h = sp.polar(pts[:, 0], pts[:, 1], radial_bins=r_edges, phi_bins=rng.choice([1, 3, 4, 7]), **kw)
+        show_zero = rng.random() < 0.6
+        if not show_zero:
+            opts["show_zero"] = False
+        if rng.random() < 0.5:
+            opts["show_colorbar"] = False
+    else:
+        h = make_2d(rng)
+        show_zero = True
+    desc = {"backend": "matplotlib", "kind": kind, "opts": dict(opts), "shape": list(h.shape), "frequencies": np.asarray(h.frequencies).tolist()}
+    rec.mon("C20.artists")
+    with attach.quiet():
+        before = snap.snapshot(h)
+    calls = []
+    orig = Axes3D.bar3d
+
+    def spy(self, *a, **k):
+        calls.append((a, k))
+        return orig(self, *a, **k)
+
+    try:
+        with warnings.catch_warnings():
+            warnings.simplefilter("ignore")
+            if kind == "bar3d":
+                Axes3D.bar3d = spy
+            try:
+                ax = h.plot(kind, backend="matplotlib", **opts)
+            finally:
+                Axes3D.bar3d = orig
+    except Exception as e:
+        if float(h.total) > 0:
+            rec.fail(monitor="C20.artists", op=f"mpl.{kind}", symptom=f"plotting a valid histogram raised {type(e).__name__}", diff=["raised"], detail={**desc, "error": str(e)[:200]})
+        plt.close("all")
+        return
+    try:
+        with attach.quiet():
+            rec.mon("C20.unchanged")
+            dd = snap.diff(before, snap.snapshot(h))
+            if dd:
+                rec.fail(monitor="C20.unchanged", op=f"mpl.{kind}", symptom="plotting modified the histogram", diff=sorted(dd), detail=desc)
+            f = np.asarray(h.frequencies, dtype=float)
+            data = f / np.asarray(h.bin_sizes, dtype=float) if density else f
+            b0, b1 = np.asarray(h.bins[0], dtype=float), np.asarray(h.bins[1], dtype=float)
+
+            def fail(symptom, diff, **extra):
+                rec.fail(monitor="C20.artists", op=f"mpl.{kind}", symptom=symptom, diff=diff, detail={**desc, **extra})
+
+            want = {}
+            for i in range(f.shape[0]):
+                for j in range(f.shape[1]):
+                    if data[i, j] > 0 or show_zero:
+                        want[(i, j)] = float(data[i, j])
+            if kind == "polar_map":
+                # wedge of bin (i, j): x = phi_left, width = dphi, bottom (y) = r_left, height = dr
+                rects = [p for p in ax.patches if isinstance(p, Rectangle)]
+                geo = {(float(b1[j, 0]), float(b0[i, 0]), float(b1[j, 1] - b1[j, 0]), float(b0[i, 1] - b0[i, 0])): v for (i, j), v in want.items()}
+                got = {(float(p.get_x()), float(p.get_y()), float(p.get_width()), float(p.get_height())): p.get_facecolor() for p in rects}
+                if len(rects) != len(geo) or any(not any(all(abs(a - b) <= 1e-9 * (1 + abs(b)) for a, b in zip(k, kk)) for kk in got) for k in geo):
+                    fail("polar_map does not draw exactly one wedge per (shown) bin at the bin's (phi, r) position", ["cells"], drawn=len(rects), expected=len(geo),
+                         sample_drawn=list(got)[:4], sample_expected=list(geo)[:4])
+                else:
+                    pairs = sorted((v, float(np.dot(got[min(got, key=lambda g: sum(abs(a - b) for a, b in zip(g, k)))][:3], [0.299, 0.587, 0.114]))) for k, v in geo.items())
+                    if any(pairs[i + 1][1] > pairs[i][1] + 1e-9 and pairs[i + 1][0] > pairs[i][0] for i in range(len(pairs) - 1)):
+                        fail("wedge colour is not monotone in the bin's value", ["colours"], pairs=pairs[:8])
+                if "polar" not in type(ax).__name__.lower() and getattr(ax, "name", "") != "polar":
+                    fail("polar_map was not drawn on polar axes", ["axes"], axes=type(ax).__name__)
+            else:
+                if len(calls) != 1:
+                    fail("bar3d did not issue exactly one box drawing call", ["cells"], calls=len(calls))
+                else:
+                    a, k = calls[0]
+                    x, y, z, dx, dy, dz = [np.asarray(v, dtype=float).ravel() for v in a[:6]]
+                    exp = []
+                    for i in range(f.shape[0]):
+                        for j in range(f.shape[1]):
+                            exp.append((b0[i, 0], b1[j, 0], 0.0, b0[i, 1] - b0[i, 0], b1[j, 1] - b1[j, 0], data[i, j]))
+                    exp = np.array(exp, dtype=float)
+                    gotm = np.stack([x, y, z, dx, dy, dz], axis=1) if len(x) == len(exp) else None
+                    if gotm is None:
+                        fail("bar3d does not draw one box per bin", ["cells"], drawn=len(x), expected=len(exp))
+                    else:
+                        # Axes3D.bar3d anchors a box at (x, y, z) and extends it by (dx, dy, dz): on its bin iff anchored at the bin's left edges
+                        corner = np.allclose(gotm, exp, rtol=1e-9, atol=1e-12)
+                        centre = False
+                        if not (corner or centre):
+                            if not np.allclose(gotm[:, 5], exp[:, 5], rtol=1e-9, atol=1e-12):
+                                fail("bar3d box heights are not the bins' values", ["heights"], got=gotm[:6, 5], expected=exp[:6, 5])
+                            elif not np.allclose(gotm[:, 3:5], exp[:, 3:5], rtol=1e-9, atol=1e-12):
+                                fail("bar3d box footprints are not the bins' widths", ["cells"], got=gotm[:4, 3:5], expected=exp[:4, 3:5])
+                            else:
+                                fail("bar3d boxes are not positioned on their bins", ["cells"], got=gotm[:4, :2], expected_corner=exp[:4, :2])
+                    if ax.get_zlabel() != ("density" if density else "frequency"):
+                        fail("bar3d z label does not say what is drawn", ["labels"], got=ax.get_zlabel())
+            if kind == "bar3d":
+                if ax.get_xlabel() != "x [mm]" or ax.get_ylabel() != "y [mm]":
+                    fail("axis labels do not come from the histogram's axis names", ["labels"], got=[ax.get_xlabel(), ax.get_ylabel()])
+    finally:
+        plt.close("all")
+    rec.case([kind, opts, np.asarray(h.frequencies).tolist(), [np.asarray(b).tolist() for b in h.bins]], float(h.total) > 0 and h.shape[0] * h.shape[1] >= 2,
+             cls=f"mpl/{kind}{'/density' if density else ''}", sample={"kind": kind, "opts": opts, "shape": list(h.shape), "drawn": len(want)})
+
+
+def mpl_other_case(ctx, index, rng: random.Random):
+    """The remaining matplotlib plot types (globe_map, cylinder_map, surface_map, pair_bars): they accept the matching
+    histograms and never modify them (pair_bars negates a copy under free arithmetics: the switch must be off again)."""
+    import matplotlib
+
+    matplotlib.use("Agg")
+    import matplotlib.pyplot as plt
+    import physt
+    from physt import special_histograms as sp
+    from physt.config import config
+    from physt.plotting import matplotlib as pm
+
+    rec = ctx.rec
+    kind = rng.choice(["globe_map", "cylinder_map", "surface_map", "pair_bars"])
+    n = rng.randint(2, 30)
+    pts = np.array([[rng.gauss(0, 1.5) for _ in range(3)] for _ in range(n)])
+    rec.mon("C20.unchanged")
+    with warnings.catch_warnings():
+        warnings.simplefilter("ignore")
+        if kind == "globe_map":
+            hs = [sp.spherical_surface(pts, theta_bins=rng.choice([2, 4]), phi_bins=rng.choice([3, 6]))]
+        elif kind == "cylinder_map":
+            hs = [sp.cylindrical_surface(pts, phi_bins=rng.choice([3, 6]), z_bins=np.array([-5.0, 0.0, 1.0, 5.0]))]
+        elif kind == "surface_map":
+            hs = [make_2d(rng)]
+        else:
+            e = np.array(gen.edges(rng, rng.randint(1, 6)))
+            p = gen.pairs_from_edges(e.tolist())
+            hs = [physt.h1(np.asarray(gen.data_for_bins(rng, p, n)), e, name="first"), physt.h1(np.asarray(gen.data_for_bins(rng, p, n)), e, name="second")]
+        with attach.quiet():
+            before = [snap.snapshot(h) for h in hs]
+        flag = bool(config.free_arithmetics)
+        try:
+            if kind == "pair_bars":
+                pm.pair_bars(hs[0], hs[1])
+            else:
+                hs[0].plot(kind, backend="matplotlib")
+        except Exception as e:
+            rec.fail(monitor="C20.unchanged", op=f"mpl.{kind}", symptom=f"plotting a valid histogram raised {type(e).__name__}", diff=["raised"], detail={"kind": kind, "error": str(e)[:200]})
+        finally:
+            plt.close("all")
+    with attach.quiet():
+        for h, b in zip(hs, before):
+            dd = snap.diff(b, snap.snapshot(h))
+            if dd:
+                rec.fail(monitor="C20.unchanged", op=f"mpl.{kind}", symptom="plotting modified the histogram", diff=sorted(dd), detail={"kind": kind})
+        if bool(config.free_arithmetics) != flag:
+            rec.fail(monitor="C20.unchanged", op=f"mpl.{kind}", symptom="plotting left the free-arithmetics switch changed", diff=["free_arithmetics"], detail={"kind": kind})
+    rec.case([kind, pts.tolist()], True, cls=f"mpl/{kind}")
+
+
 def attach_monitors():
     import physt.plotting as pp
 
@@ -656,6 +831,8 @@ def run(ctx):
     attach_monitors()
     ctx.run_cases(ctx.scale(90, 700), mpl_1d_case, salt="mpl1d")
     ctx.run_cases(ctx.scale(50, 400), mpl_2d_case, salt="mpl2d")
+    ctx.run_cases(ctx.scale(30, 200), mpl_special_2d_case, salt="mplspecial")
+    ctx.run_cases(ctx.scale(12, 80), mpl_other_case, salt="mplother")
     ctx.run_cases(ctx.scale(120, 800), plotly_case, salt="plotly")
     ctx.run_cases(ctx.scale(60, 300), ascii_case, salt="ascii")
     ctx.run_cases(ctx.scale(30, 120), refusal_case, salt="refusal")
